@@ -1930,7 +1930,8 @@ pub fn run_hits(words: &[&str]) -> String {
     for (log, _) in data.iter() {
         let toks: Vec<&str> = log.split(' ').collect();
         for (i, p) in pats.iter().enumerate() {
-            if toks.iter().any(|t| t.starts_with(p)) {
+            // a pattern is a conjunction of token prefixes separated by '&'
+            if p.split('&').all(|q| toks.iter().any(|t| t.starts_with(q))) {
                 hits[i] += 1;
             }
         }
